@@ -5,8 +5,9 @@
     the trace at the current index): it yields a value whose truth [P i] depends on the index only
     and leaves the position (and an arbitrary caller-chosen invariant Inv, e.g. the trace's signal
     data) alone; it may change any other state (fill caches, print).
-    PARTIAL: (1) that every condition of the trace-reading fragment meets this premise is not proved
-    in Coq; (2) the lock-step visit order with two traces is proved only as far as position
+    PARTIAL: (1) purity is proved for the read-only fragment (T-ro below: literals, names, arithmetic,
+    comparison, logic, bitwise, slice, if, do) on states without virtual signals; for conditions using @,
+    scoped references, virtual signals or user functions the premise is not proved in Coq; (2) the lock-step visit order with two traces is proved only as far as position
     neutrality (T-neutral, any number of traces) — results with two traces are decided by the
     differential check; (3) fuel: the theorems require fuel > m - i, the model's loop fuel is
     larger than any trace the harness loads and an out-of-fuel run is reported as such, never
@@ -74,6 +75,33 @@ Theorem truth_at_means : forall ev tid c st0 t0 j,
   at_idx tid st0 t0 j = set1 st0 tid (set_index t0 j).
 Proof. intros. split; reflexivity. Qed.
 Print Assumptions truth_at_means.
+
+(** T-ro: an expression of the read-only fragment - literals, names, arithmetic, comparison, logic, bitwise
+    operators, slice, if, do, nested arbitrarily - leaves the interpreter state exactly as it was (on states whose
+    traces have no virtual signals: reading one fills its cache).  Proved for the real evaluator, any fuel. *)
+Theorem read_only_fragment_leaves_the_state : forall lf f e, ReadOnly.is_ro e = true ->
+  forall st v st', ReadOnly.novirt st -> eval lf f e st = Ok v st' -> st' = st.
+Proof. intros lf f e H st v st' Hn E. exact (ReadOnly.ro_pure lf f e H st v st' Hn E). Qed.
+Print Assumptions read_only_fragment_leaves_the_state.
+
+Theorem read_only_fragment_is : forall e, ReadOnly.is_ro e =
+  match e with
+  | VInt _ | VBool _ | VStr _ | VFloat _ | VSym _ _ => true
+  | VList _ (VOp o :: args) => ReadOnly.ro_op o && forallb ReadOnly.is_ro args
+  | _ => false
+  end.
+Proof. intros e. destruct e; reflexivity. Qed.
+Print Assumptions read_only_fragment_is.
+
+(** hence for a condition of the fragment only "c can be evaluated at every index" remains a premise *)
+Theorem find_over_a_read_only_condition : forall lf f tid c st0 t0,
+  tr_tid t0 = tid -> tr_virt t0 = [] -> ReadOnly.is_ro c = true ->
+  (forall j, 0 <= j <= tr_max t0 -> exists v st', eval lf f c (at_idx tid st0 t0 j) = Ok v st') ->
+  forall fuel i, 0 <= i <= tr_max t0 -> (Z.to_nat (tr_max t0 - i) < fuel)%nat ->
+  op_find fuel (eval lf f) [c] (at_idx tid st0 t0 i) =
+  Ok (PL (map VInt (filter (truth_at (eval lf f) tid c st0 t0) (zrange_nat i (S (Z.to_nat (tr_max t0 - i))))))) (at_idx tid st0 t0 i).
+Proof. exact find_pointwise_ro. Qed.
+Print Assumptions find_over_a_read_only_condition.
 
 (** the premise is met by the real evaluator (fuel 1200) on the condition (= a 1) over a five-sample trace *)
 Theorem find_with_the_real_evaluator :
